@@ -26,7 +26,13 @@ def main():
             tier = a.split("=", 1)[1]
         if a.startswith("--run="):
             runflag = "-run '%s' " % a.split("=", 1)[1]
+    script = ""
+    for a in sys.argv[5:]:
+        if a.startswith("--script="):
+            script = a.split("=", 1)[1]
     patch = os.path.join(src, "patch.diff")
+    if script:
+        return main_script(src, sid, prop, demo, checks, tier, script, patch)
     wt = "/tmp/wt_eval_%s" % sid
     sh("git -C /repo worktree remove --force %s" % wt)
     rc, out = sh("git -C /repo worktree add -q --detach %s HEAD" % wt)
@@ -40,6 +46,8 @@ def main():
         meta["ran"].append("go build ./... && go test -vet=off -count=1 ./...  (with patch): " + meta["existing_tests_with_patch"][:200])
         demo_src = os.path.join(os.path.dirname(src.rstrip("/")), "..", demo)
         demo_src = os.path.normpath(demo_src)
+        if os.path.isdir(os.path.join(src, demo)):
+            demo_src = os.path.join(src, demo)
         shutil.copytree(demo_src, os.path.join(wt, demo), dirs_exist_ok=True)
         rc1, out1 = sh("go test -vet=off -count=1 %s./%s/... 2>&1 | tail -15" % (runflag, demo), cwd=wt, timeout=900)
         rc, _ = sh("go test -vet=off -count=1 %s./%s/... >/dev/null 2>&1" % (runflag, demo), cwd=wt, timeout=900)
@@ -50,14 +58,40 @@ def main():
         meta["ran"].append("go test ./%s/... with patch: %s; without patch: %s" % (demo, meta["demo_with_patch"], meta["demo_without_patch"]))
     finally:
         sh("git -C /repo worktree remove --force %s" % wt)
+    finish(src, sid, demo_src, patch, meta, checks, tier)
+
+
+def main_script(src, sid, prop, demo, checks, tier, script, patch):
+    """the demonstration is a script that refers to the sub-agent's own scratch worktree (src): confirm there"""
+    meta = {"seed": sid, "property": prop, "ran": []}
+    rc, out = sh("git stash list | wc -l; git diff --stat | tail -1", cwd=src)
+    rc, out = sh("go build ./... && go test -vet=off -count=1 $(go list ./... | grep -v '/demo') 2>&1 | grep -v '^ok\\|no test files' ; true", cwd=src)
+    meta["existing_tests_with_patch"] = "pass" if out.strip() == "" else out[-1500:]
+    meta["ran"].append("go build ./... && go test -vet=off -count=1 ./...  (with patch, in the scratch worktree): " + meta["existing_tests_with_patch"][:200])
+    rc1, out1 = sh("bash %s" % os.path.basename(script), cwd=os.path.join(src, os.path.dirname(script)), timeout=1800)
+    meta["demo_with_patch"] = "FAIL" if rc1 != 0 else "pass"
+    rc, out = sh("git stash", cwd=src)
+    assert "Saved working directory" in out, out
+    try:
+        rc2, out2 = sh("bash %s" % os.path.basename(script), cwd=os.path.join(src, os.path.dirname(script)), timeout=1800)
+    finally:
+        sh("git stash pop", cwd=src)
+    meta["demo_without_patch"] = "pass" if rc2 == 0 else "FAIL"
+    meta["ran"].append("bash %s with patch: %s (exit %d); without patch: %s (exit %d)" % (script, meta["demo_with_patch"], rc1, meta["demo_without_patch"], rc2))
+    meta["demo_output_with_patch"] = out1[-1200:]
+    finish(src, sid, os.path.join(src, demo), patch, meta, checks, tier)
+
+
+def finish(src, sid, demo_src, patch, meta, checks, tier):
     dst = "/verif/seeded/%s" % sid
     os.makedirs(dst, exist_ok=True)
     shutil.copy(patch, os.path.join(dst, "patch.diff"))
-    shutil.copytree(demo_src, os.path.join(dst, "demo"), dirs_exist_ok=True)
-    notes = os.path.join(src, "notes.txt")
-    if os.path.exists(notes):
-        shutil.copy(notes, os.path.join(dst, "notes.txt"))
-        meta["needs"] = open(notes).read()[:1500]
+    shutil.copytree(demo_src, os.path.join(dst, "demo"), dirs_exist_ok=True, ignore=shutil.ignore_patterns("gen", "labmod", "thriftrw", "thriftbreak", "*.bin", "scratch*", "work*", "tmp*"))
+    for nm in ("notes.txt", "NOTES.md"):
+        notes = os.path.join(src, nm)
+        if os.path.exists(notes):
+            shutil.copy(notes, os.path.join(dst, nm))
+            meta["needs"] = open(notes).read()[:1500]
     confirmed = (meta["existing_tests_with_patch"] == "pass" and meta["demo_with_patch"] == "FAIL" and meta["demo_without_patch"] == "pass")
     meta["confirmed"] = confirmed
     # run the checks against /repo with the patch applied
